@@ -176,15 +176,23 @@ prop(
 
 prop(
     'C08',
-    ['T3', 'T4', 'R6', 'D5', 'X3b', 'X1', 'X2', 'T6'],
+    ['T3', 'T4', 'R6', 'R7', 'D5', 'X3b', 'X1', 'X2', 'T6'],
     explanation=(
-        'Only the table-driven parts of the simplifier: T3 commutative/associative flags equal the mathematical ground truth '
+        'The table-driven parts of the simplifier and its local identities: T3 commutative/associative flags equal the mathematical ground truth '
         '(used by _pre_simplify_binop to commute/re-associate), T4 INVERSE_OPERATORS is the mirror involution (used to flip '
         'comparisons), R6 every node rebuilt by _pre_simplify_binop (113 paths) keeps the operator or its mirror and exactly '
         'the multiset of operands of the input, re-associating only under the associative and swapping only under the '
         'commutative flag, T6 is_* predicates and function-name dispatch strings name the right rows, D5 re-wrapping to the '
         'vacuous predicates, X3b the only explicit raise is ZeroDivisionError under a literal-zero divisor test, X1/X2 no '
-        'unbound local / index beyond the smallest overload. NOT decided: the ~60 value-dependent rewrite identities.'
+        'unbound local / index beyond the smallest overload. R7: the guarded rewrite steps of the 12 leaf simplification '
+        'functions reached through the operator dispatchers (addition ... exponentiation, comparison, negation, negative '
+        'number, implies, iff, and the leading branches of conjunction / disjunction) are read as schemas over denotations '
+        '(operands the guards do not inspect are free; literal / division / negation structure, a == b, _obvious_negatives, '
+        '_obviously_different and calls of other simplifier functions are interpreted) and checked in a finite model '
+        '(numbers -2..2 and 1/2, truth values): in every assignment that satisfies the guards and defines the input, '
+        'the output denotes the same value. NOT decided: the duplicate-elimination tails of conjunction / disjunction, '
+        'constant folding of function calls (sum, prod, min, max, ...), the helper contracts themselves, values outside '
+        'the model (NaN, infinities, float rounding).'
     ),
 )
 
